@@ -36,6 +36,7 @@ func init() {
 		ID: "C17", Quick: 20000, Thorough: 5000000,
 		Profiles: []ProfileDef{
 			{Name: "store", Share: 10, Sc: scStore},
+			{Name: "race-store", Share: 1, Sc: scStoreRace, Race: true},
 		},
 	})
 }
